@@ -292,3 +292,6 @@ hdk_harness! { #[kani::unwind(132)] fn c03_d1_hardened_s64() { check_derive::<64
 hdk_harness! { #[kani::unwind(132)] fn c03_d1_normal_s64() { check_derive::<64, 1>(Some(false)) } }
 hdk_harness! { #[kani::unwind(132)] fn c03_d1_any_s16() { check_derive::<16, 1>(None) } }
 hdk_harness! { #[kani::unwind(132)] fn c03_d2_any_s64() { check_derive::<64, 2>(None) } }
+// seeds longer than 64 bytes (BIP-32 allows up to 512 bits, other wallets feed more): still one SHA-512 block
+hdk_harness! { #[kani::unwind(132)] fn c03_master_s65() { check_derive::<65, 0>(None) } }
+hdk_harness! { #[kani::unwind(132)] fn c03_master_s96() { check_derive::<96, 0>(None) } }
